@@ -9,7 +9,7 @@ use std::collections::{BTreeMap, BTreeSet};
 pub static META: Meta = Meta {
     id: "C32",
     level: "exploration",
-    rule: "histories of 20-60 writes on relations r/2 and s/1 over the domain {0..4}, mixing the storage API (insert_tuples_into / delete_tuples_from with in-batch duplicates, present and absent tuples) and handler statements (+r(..), +r[..], -r(..), conditional deletes with comparisons / joins / negation, update statements); after every step the dump must be duplicate-free and equal to the set model, the reported new/deleted counts must equal the model's, and every few steps a query must return the model; distinct = history; non-trivial = history has >= 10 effective writes",
+    rule: "histories of 20-60 writes on relations r/2 and s/1 over the domain {0..4} (every third history: domain {0..11} with r pre-loaded to 40-70 tuples), mixing the storage API (insert_tuples_into / delete_tuples_from with in-batch duplicates, present and absent tuples) and handler statements (+r(..), +r[..], -r(..), conditional deletes with comparisons / joins / negation, update statements); after every step the dump must be duplicate-free and equal to the set model, the reported new/deleted counts must equal the model's, and every few steps a query must return the model; distinct = history; non-trivial = history has >= 10 effective writes",
     assumptions: &["conditions of conditional deletes/updates are drawn from 8 templates whose semantics the harness evaluates itself", "for updates the inserted count may be the number of new tuples, of distinct inserted tuples or of bindings (the property leaves it open)"],
     floor: 30,
     watchdog: (0, 0),
@@ -56,14 +56,23 @@ pub fn run(ctx: &mut Ctx) {
         m.insert("r", Rel::new());
         m.insert("s", Rel::new());
         let steps = 20 + r.below(41);
+        // every third history works on large relations (a 12x12 domain, pre-loaded with ~40-70 tuples):
+        // size-dependent code paths (indexes, thresholds) only show there
+        let dom: i64 = if k % 3 == 0 { 11 } else { 4 };
         let mut hist: Vec<String> = Vec::new();
         let mut effective = 0;
+        if dom > 4 {
+            let pre: Vec<Vec<i64>> = (0..(40 + r.below(40))).map(|_| vec![r.range(0, dom), r.range(0, dom)]).collect();
+            hist.push(format!("api insert r (preload of {} tuples)", pre.len()));
+            let _ = h.h.get_storage().insert_tuples_into("default", "r", pre.iter().map(|t| ituple(t)).collect());
+            m.get_mut("r").unwrap().extend(pre);
+        }
         let mut failed = false;
         ctx.eval();
         for step in 0..steps {
             let rel: &'static str = if r.chance(2, 3) { "r" } else { "s" };
             let ar = if rel == "r" { 2 } else { 1 };
-            let mk = |r: &mut crate::rng::Rng| -> Vec<i64> { (0..ar).map(|_| r.range(0, 4)).collect() };
+            let mk = |r: &mut crate::rng::Rng| -> Vec<i64> { (0..ar).map(|_| r.range(0, dom)).collect() };
             let kind = r.below(12);
             let mut problem: Option<(String, String)> = None; // (class, what)
             match kind {
